@@ -61,6 +61,9 @@ JFwd(j) == [k \in 1..Len(j) |-> [h |-> j[k].h, adds |-> j[k].adds,
                                  ack |-> JSet(j[k].ack)]]
 ConformFwd == (Good /\ Last.sherr = "") => \A p \in Party : disk[p].fwd = JFwd(Last.sh[p].fwd)
 
+\* C02: the SettleFailFilter of the package of the (surviving) outgoing channel, read back from the database
+ConformDack == (Good /\ Last.sherr = "") => \A p \in Party : disk[p].dack = JSet(Last.sh[p].dack)
+
 \* C02: "each channeldb write is one atomic kvdb transaction": an API call commits at most one read-write
 \* transaction (counted from the bbolt file's meta pages), so call boundaries are all the crash points there are
 AtMostOneTx == Good => \A p \in Party : Last.ntx[p] <= 1 /\ (p # Last.p => Last.ntx[p] = 0)
@@ -188,6 +191,7 @@ Reset ==
   /\ released' = [p \in Party |-> {}]
   /\ nfees' = 0
   /\ opener' = Trace[l].opener
+  /\ lwrMem' = [p \in Party |-> FALSE]
   /\ bad' = "none"
   /\ ctx' = [type |-> Trace[l].type, dust |-> [A |-> Trace[l].dust.A, B |-> Trace[l].dust.B], thaw |-> IF "thaw" \in DOMAIN Trace[l] THEN Trace[l].thaw ELSE 0]
 
@@ -212,6 +216,7 @@ TStep ==
   \/ Is("RecvFee") /\ RecvFee(P)
   \/ AddRejected
   \/ Is("StaleTouch") /\ UNCHANGED vars
+  \/ Is("LiveRefresh") /\ LiveRefresh(P)
 TNext == \/ TStep /\ UNCHANGED ctx
          \/ Reset
          \/ (l = Len(Trace) + 1 /\ UNCHANGED <<vars, l, ctx>>)
